@@ -56,11 +56,25 @@ def coq_rows(rows):
     return "[" + ";\n  ".join("(%s, %s, %d, %s)" % (fix(d), fix(t), p, "true" if f else "false") for d, t, p, f, _ in rows) + "]"
 
 
-def coq_run(name, run):
-    """Definitions <name>_gg : gdag, <name>_cap : nat, <name>_tr : option (list glabel) (compact N encoding)."""
-    inner = "[" + ";\n ".join("(%d, %s)" % (p, coq_rows(r)) for p, r in sorted(run.inner.items())) + "]"
-    out = "Definition %s_gg : gdag := gdag_of_ntables\n %s\n %s.\n" % (name, coq_rows(run.top or []), inner)
-    out += "Definition %s_cap : nat := %d.\n" % (name, run.cap)
+def coq_run(name, run, tabs=None):
+    """Definitions <name>_gg : gdag, <name>_cap : nat, <name>_tr : option (list glabel) (compact N encoding).
+    tabs: dict content -> name of already emitted tables (identical graphs are emitted once per file)."""
+    import hashlib
+    if tabs is None:
+        tabs = {}
+    out = ""
+
+    def tab(rows):
+        nonlocal out
+        c = coq_rows(rows)
+        if c not in tabs:
+            tabs[c] = "tab_" + hashlib.sha1(c.encode()).hexdigest()[:12]
+            out += "Definition %s : list nrow := %s.\n" % (tabs[c], c)
+        return tabs[c]
+    top = tab(run.top or [])
+    inner = "[" + "; ".join("(%d, %s)" % (p, tab(r)) for p, r in sorted(run.inner.items())) + "]"
+    out += "Definition %s_gg : gdag := gdag_of_ntables %s %s.\n" % (name, top, inner)
+    out += "Definition %s_cap : nat := %d%%nat.\n" % (name, run.cap)
     flat = []
     for line in run.raw:
         f = line.split(" ")
@@ -69,7 +83,7 @@ def coq_run(name, run):
         else:
             lvl, kind, a, b, x = int(f[1]), f[2], int(f[3]), int(f[4]), int(f[5])
             flat.append("%d;%d;%d;%d" % (lvl + 1, KINDS[kind], a, x if kind == "end" else max(b, 0)))
-    out += "Definition %s_tr : option (list (glabel unit unit)) := decode_trace [\n %s]%%N.\n" % (name, ";\n ".join(flat))
+    out += "Definition %s_tr : option (list (glabel unit unit)) := decode_trace [\n %s].\n" % (name, ";\n ".join(flat))
     return out
 
 
